@@ -371,7 +371,33 @@ def mut_alphabet(v, seed):
     return ops
 
 
+def small_alphabet(v, seed):
+    """Reduced mutating alphabet for deep (depth 4+) searches: two roles, every range, the structural operations."""
+    R = explore.roles(seed)
+    L = len(v)
+    ops = []
+    for c in (R['R'], R['W']):
+        for (s_, e_) in explore.ranges(L):
+            ops.append(['apply', c, s_, e_, True])
+            ops.append(['apply', c, s_, e_, False])
+            ops.append(['remove', c, s_, e_])
+    for (s_, e_) in explore.ranges(L):
+        ops.append(['remove', None, s_, e_])
+    if L <= 4:
+        ops += [['icat', ['lit', 'z']], ['icat', ['ctor', 'z', R['R']]], ['iselfcat'], ['center', L + 2, '*', True, True],
+                ['rjust', L + 1, '*', True, False], ['assign', v.base_str + 'Q'], ['replace', v.base_str[:1] or 'a', ['ctor', 'q', R['R']], -1, True]]
+    if L >= 2:
+        ops += [['clip', 1, None, True], ['clip', None, -1, True], ['assign', v.base_str[:-1]]]
+    ops.append(['simplify'])
+    return ops
+
+
 def bfs_cfg(tier):
+    import os
+    if os.environ.get('VERIF_DEEP'):
+        # exploration aid (not registered in MANIFEST): VERIF_DEEP=<depth> searches deeper with the reduced alphabet
+        d = int(os.environ['VERIF_DEEP'])
+        return [('plain', 'ab', d, 'small'), ('rainbow', 'ab', d, 'small'), ('plain', 'a', d, 'small'), ('restart1', '', d - 1, 'small')]
     if tier == 'quick':
         return [('plain', 'a', 2), ('plain', 'a-a', 2), ('rainbow', 'ab', 2), ('plain', '', 2), ('restart1', '', 1), ('restart2', '', 1), ('dup1', '', 1), ('dup2', '', 1)]
     return [('plain', 'a', 3), ('plain', 'a-a', 2), ('rainbow', 'ab', 3), ('plain', '', 3), ('rainbow', 'a-a', 2), ('plain', 'ab', 3), ('restart1', '', 2), ('restart2', '', 2), ('dup1', '', 2), ('dup2', '', 2)]
@@ -444,7 +470,9 @@ def run_task(task, acc):
                 acc.violation(clause, case, detail, sig=clause + ':' + name)
         acc.sample({'kind': 'call', 'hist': h, 'call': ['center', [10000, '*'], {'inplace': True}]})
         return
-    lay, text, depth = bfs_cfg(tier)[task['cfg']]
+    cfg_ = bfs_cfg(tier)[task['cfg']]
+    lay, text, depth = cfg_[:3]
+    small = len(cfg_) > 3
     part = task['part']
     R0 = explore.roles(seed)
     seed_hists = {'restart1': [['plain', 'a-a'], ['apply', R0['W'], 0, 3, True], ['apply', R0['R'], 1, 2, False]],
@@ -453,7 +481,7 @@ def run_task(task, acc):
     def gen(v, hh):
         if len(v) > 7:
             return []
-        ops = mut_alphabet(v, seed)
+        ops = small_alphabet(v, seed) if small else mut_alphabet(v, seed)
         if len(hh) == len(h0):
             return ops[part::PARTS]
         return ops
